@@ -119,7 +119,7 @@ def eval_case(tree, idx, X):
     except Exception as e:
         ck.add("build", oracle.exc_man(e), e)
         return ck.fails, R
-    if "SelfAdjoint" in TP.scalar_invalidated_annotations(A):
+    if "SelfAdjoint" in TP.scalar_invalidated_annotations(A) or TP.contaminated_by_scalar(tree):
         return "contaminated", R  # open finding F-C05-scalar (recorded under C05)
     ref = ref_index(R.M, idx)
     refabs = ref_index(R.Mabs, idx)
